@@ -59,6 +59,76 @@ def appends(node, name):
     return out
 
 
+def helper_semantics(ck, P, h, buf, idx, L):
+    """The helper is interpreted as a whole under the caller's guarantee (0 <= idx, idx + 6 <= len(buf)); every normal
+    exit is classified by its result code and checked with the values its variables have there:
+      complete   (code 0):  reached exactly when idx + total <= len(buf), total = (unsigned word at idx+4) + 7;
+                            tm_list grew by exactly buf[idx : idx+total]; the queue is untouched; returns idx + total
+      incomplete (code != 0): reached exactly when idx + total > len(buf); the queue becomes [buf[idx:]];
+                            tm_list is untouched; returns idx unchanged
+    No statement shape is assumed."""
+    fn = "__handle_packet_id_match"
+    it = new_interp(P); env = Env()
+    q0, tm0 = sym("analysis_queue", ty=("list", "bytes")), sym("tm_list", ty=("list", "bytes"))
+    env.vars.update(concatenated_packets=buf, current_idx=idx, analysis_queue=q0, tm_list=tm0)
+    env.add_fact(binop(">=", idx, C(0)))
+    env.add_fact(binop("<=", binop("+", idx, C(6)), L))
+    it.log_exit_vars = True
+    it.exit_vars = []
+    it.where.append(h.short)
+    exits = []
+    try:
+        it.block(h.node.body, env, h.module, h, exits)
+    except Unsupported as e:
+        ck.unknown("P-MUST", fn, "helper interpreted", str(e))
+        return
+    d0 = len(it.where)
+    vars_at = [v for d, v in it.exit_vars if d == d0]
+    if not env.dead or len(vars_at) != len(exits) or not exits:
+        ck.unknown("P-MUST", fn, "every path of the helper ends in an explicit return", f"{len(exits)} returns, falls off the end: {not env.dead}")
+        return
+    word = T("unpacked", "!H", T("slice", buf, binop("+", idx, C(4)), binop("+", idx, C(6)), ty="bytes"), ty="int")
+    total = binop("+", word, C(7))
+    end = binop("+", idx, total)
+    kinds = {"complete": 0, "incomplete": 0}
+    for (pc, val, _heap, facts), vs in zip(exits, vars_at):
+        if not D.feasible(facts):
+            continue
+        if not (val.k == "tuple" and len(val.a[0]) == 2 and val.a[0][0].k == "const"):
+            ck.unknown("P-MUST", fn, "result is a (code, index) pair with a constant code", show(val)[:80])
+            return
+        code, nidx = val.a[0][0].a[0], val.a[0][1]
+        q, tm = vs.get("analysis_queue"), vs.get("tm_list")
+        cond = " and ".join(show(c)[:60] for c in pc) or "always"
+        if code == 0:
+            kinds["complete"] += 1
+            st, m = D.prove(facts, binop("<=", end, L))
+            ck.verdict("P-MUST", fn, "a packet is returned only when it is complete: idx + (length field + 7) <= len(buf)", [] if st == "proved" else [f"returned under {cond}: {st} {m}"], cond[:80])
+            probs = []
+            ok_tm = tm is not None and tm.k == "listext" and tm.a[0] == tm0 and tm.a[1] == "append" and len(tm.a[2]) == 1 and slice_is(D.simplify(tm.a[2][0], facts), buf, idx, end)
+            if not ok_tm:
+                probs.append(f"results become {show(tm)[:100] if tm is not None else '?'}; reference tm_list + [buf[idx : idx+total]]")
+            if q != q0:
+                probs.append(f"the queue is changed on the complete path: {show(q)[:60]}")
+            if not lin_eq(nidx, end):
+                probs.append(f"returns index {show(nidx)[:60]}; reference idx + total")
+            ck.verdict("X-PART", fn, "complete packet: exactly buf[idx : idx+total] is appended to the results, the queue is untouched and the index advances by exactly total", probs, "append + (0, idx+total)")
+        else:
+            kinds["incomplete"] += 1
+            st, m = D.prove(facts, binop(">", end, L))
+            ck.verdict("P-MUST", fn, "the incomplete-packet exit is taken only when idx + (length field + 7) > len(buf)", [] if st == "proved" else [f"taken under {cond}: {st} {m}"], cond[:80])
+            probs = []
+            ok_q = q is not None and q.k == "list" and len(q.a[0]) == 1 and slice_is(q.a[0][0], buf, idx, None)
+            if not ok_q:
+                probs.append(f"the queue becomes {show(q)[:80] if q is not None else '?'}; reference [buf[idx:]] (cleared, then the unconsumed tail)")
+            if tm != tm0:
+                probs.append("an incomplete packet is appended to the result list")
+            if nidx != idx:
+                probs.append(f"returns index {show(nidx)[:40]}; reference idx unchanged")
+            ck.verdict("P-MUST", fn, "incomplete packet: buf[idx:] is re-queued, nothing is returned, a non-zero code and the unchanged index are returned", probs, "queue == [buf[idx:]], (code != 0, idx)")
+    ck.verdict("P-MUST", fn, "the helper has a complete and an incomplete exit", [] if kinds["complete"] and kinds["incomplete"] else [str(kinds)], str(kinds), nontrivial=False)
+
+
 def scan_reads(ck, P, f, body, init, scan, buf):
     """the scan part as a whole (from the index initialisation to the end of the scan loop) over one symbolic buffer, with
     the first three iterations peeled: every index / struct.unpack of those iterations is proven in bounds - this also
@@ -67,19 +137,22 @@ def scan_reads(ck, P, f, body, init, scan, buf):
     if not init or body.index(init[-1]) > body.index(scan):
         ck.unknown("X-BUF", fn, "scan part located", "index initialisation not found before the scan loop")
         return
+    # start right after the drain loop, so that local definitions made before the index initialisation are included
+    others = [i for i, s_ in enumerate(body) if isinstance(s_, ast.While) and s_ is not scan and i < body.index(scan)]
+    start = (max(others) + 1) if others else body.index(init[-1])
     it = new_interp(P); env = Env()
     it.peel_depth = 3
     env.vars.update(concatenated_packets=buf, analysis_queue=sym("analysis_queue", ty=("list", "bytes")), tm_list=sym("tm_list", ty=("list", "bytes")),
                     ids_raw=sym("ids_raw", ty=("list", "int")))
     it.where.append(f.short)
     try:
-        it.block(body[body.index(init[-1]):body.index(scan) + 1], env, f.module, f, [])
+        it.block(body[min(start, body.index(init[-1])):body.index(scan) + 1], env, f.module, f, [])
     except Unsupported as e:
         ck.unknown("X-BUF", fn, "scan part interpreted", str(e))
         return
     n = D.check_xbuf(ck, it, fn + " [scan part, 3 peeled iterations]")
     D.check_escape(ck, it, fn + " [scan part, 3 peeled iterations]", allowed=("ValueError",))
-    ck.floor("reads of the scan part", n, 6)
+    ck.floor("reads of the scan part", n, 3)
 
 
 def run(ck):
@@ -107,73 +180,9 @@ def run(ck):
     idx = sym("current_idx", ty="int")
     L = length(buf)
 
-    # ---------------------------------------------------------------- helper
-    env = Env()
-    env.vars.update(concatenated_packets=buf, current_idx=idx, analysis_queue=sym("analysis_queue", ty=("list", "bytes")), tm_list=sym("tm_list", ty=("list", "bytes")))
-    body = [s for s in h.node.body if not (isinstance(s, ast.Expr) and isinstance(s.value, ast.Constant))]
+    # ---------------------------------------------------------------- helper (semantic: its exits, whatever its statements)
     fn = "__handle_packet_id_match"
-    k_if = next((i for i, s_ in enumerate(body) if isinstance(s_, ast.If)), None)
-    if k_if is not None and k_if > 1 and all(isinstance(s_, (ast.Assign, ast.AnnAssign)) for s_ in body[:k_if]):
-        # further local definitions between the length computation and the test are evaluated, not matched
-        pre_defs = body[1:k_if]
-        body = [body[0]] + body[k_if:]
-    else:
-        pre_defs = []
-    if not (len(body) >= 2 and isinstance(body[0], ast.Assign) and isinstance(body[1], ast.If)):
-        ck.unknown("P-MUST", fn, "statement skeleton: total = ...; if <does not fit>: re-queue, return (-1, idx) else: append, advance, return (0, idx)", "skeleton not recognised")
-        return
-    it.block([body[0]] + pre_defs, env, h.module, h, [])
-    total = env.vars.get(body[0].targets[0].id) if isinstance(body[0].targets[0], ast.Name) else None
-    word = T("unpacked", "!H", T("slice", buf, binop("+", idx, C(4)), binop("+", idx, C(6)), ty="bytes"), ty="int")
-    ok = total is not None and lin_eq(total, binop("+", word, C(7)))
-    det = show(total)[:100] if total is not None else "?"
-    ck.verdict("W-VAL", fn, "total packet length == (unsigned 16-bit word at idx+4) + 7", [] if ok else [f"total = {det}"], det)
-    ifn = body[1]
-    cond = it.ev(ifn.test, env.clone(), h.module, h)
-    ck.verdict("P-MUST", fn, "the incomplete-packet test is idx + total > len(buf)", [] if cond_is(cond, binop("+", idx, total), ">", L) else [show(cond)[:100]], show(cond)[:80])
-    # incomplete branch
-    probs = []
-    ap = appends(ifn.body, "analysis_queue")
-    if len(ap) != 1:
-        probs.append(f"{len(ap)} re-queue operations on the incomplete path")
-    else:
-        t = it.ev(ap[0].args[0], env.clone(), h.module, h)
-        if not slice_is(t, buf, idx, None):
-            probs.append(f"re-queues {show(t)[:60]}, reference buf[idx:]")
-    rets = [s for s in ifn.body if isinstance(s, ast.Return)]
-    if len(rets) != 1:
-        probs.append("no single return on the incomplete path")
-    else:
-        rv = it.ev(rets[0].value, env.clone(), h.module, h)
-        if not (rv.k == "tuple" and len(rv.a[0]) == 2 and rv.a[0][0].k == "const" and rv.a[0][0].a[0] != 0 and rv.a[0][1] == idx):
-            probs.append(f"returns {show(rv)[:60]}; reference (non-zero, idx unchanged)")
-    if appends(ifn.body, "tm_list"):
-        probs.append("an incomplete packet is appended to the result list")
-    ck.verdict("P-MUST", fn, "incomplete packet: buf[idx:] is re-queued, nothing is returned, a non-zero code and the unchanged index are returned", probs, "one append of buf[idx:], return (-1, idx)")
-    # complete branch: the else-part followed by the statements after the if
-    rest = list(ifn.orelse) + body[2:]
-    e2 = env.clone()
-    probs = []
-    ap = appends(rest, "tm_list")
-    if len(ap) != 1:
-        probs.append(f"{len(ap)} appends to the result list on the complete path")
-    else:
-        t = it.ev(ap[0].args[0], e2.clone(), h.module, h)
-        if not slice_is(t, buf, idx, binop("+", idx, total)):
-            probs.append(f"returns {show(t)[:80]}, reference buf[idx : idx+total]")
-    if appends(rest, "analysis_queue"):
-        probs.append("the complete path touches the queue")
-    for s in rest:
-        if isinstance(s, (ast.AugAssign, ast.Assign)):
-            it.block([s], e2, h.module, h, [])
-    rets = [s for s in rest if isinstance(s, ast.Return)]
-    if len(rets) != 1:
-        probs.append("no single return on the complete path")
-    else:
-        rv = it.ev(rets[0].value, e2.clone(), h.module, h)
-        if not (rv.k == "tuple" and len(rv.a[0]) == 2 and D.is_const(rv.a[0][0], 0) and lin_eq(rv.a[0][1], binop("+", idx, total))):
-            probs.append(f"returns {show(rv)[:80]}; reference (0, idx + total)")
-    ck.verdict("X-PART", fn, "complete packet: exactly buf[idx : idx+total] is appended to the results and the index advances by exactly total", probs, "append + advance + return (0, idx+total)")
+    helper_semantics(ck, P, h, buf, idx, L)
     # in-bounds reads of the helper, given the caller's guarantee idx + 6 <= len(buf)
     it2 = new_interp(P); env2 = Env()
     env2.add_fact(binop(">=", idx, C(0)))
@@ -225,6 +234,14 @@ def scan_skeleton(ck, P, it, f, h, body, scan, buf, idx, L):
     env = Env()
     q = sym("analysis_queue", ty=("list", "bytes"))
     env.vars.update(concatenated_packets=buf, current_idx=idx, analysis_queue=q, tm_list=sym("tm_list", ty=("list", "bytes")), ids_raw=sym("ids_raw", ty=("list", "int")))
+    # loop-invariant local definitions made between the drain and the scan loop (e.g. a cached buffer length) are
+    # evaluated, provided the scan loop never reassigns them
+    stored_in_scan = {n_.id for n_ in ast.walk(scan) if isinstance(n_, ast.Name) and isinstance(n_.ctx, ast.Store)}
+    drain_i = max(i for i, s_ in enumerate(body) if isinstance(s_, ast.While) and s_ is not scan)
+    pre = [s_ for s_ in body[drain_i + 1:body.index(scan)] if isinstance(s_, ast.Assign) and len(s_.targets) == 1 and isinstance(s_.targets[0], ast.Name)
+           and s_.targets[0].id != "current_idx" and s_.targets[0].id not in stored_in_scan]
+    if pre:
+        it.block(pre, env, f.module, f, [])
     if lead:
         it.block(lead, env, f.module, f, [])
     short = sbody[0]
@@ -254,11 +271,19 @@ def scan_skeleton(ck, P, it, f, h, body, scan, buf, idx, L):
     e3 = env.clone()
     e3.add_fact(un("not", cond))
     rest = sbody[1:]
-    if not (isinstance(rest[0], ast.Assign) and isinstance(rest[1], ast.If)):
+    # one or more local definitions, then the registered-id test
+    n_def = 0
+    while n_def < len(rest) and isinstance(rest[n_def], (ast.Assign, ast.AnnAssign)):
+        n_def += 1
+    if n_def == 0 or n_def >= len(rest) or not isinstance(rest[n_def], ast.If):
         ck.unknown("W-VAL", fn, "id extraction followed by the registered-id test", "skeleton not recognised")
         return
-    it.block([rest[0]], e3, f.module, f, [])
-    pid = e3.vars.get(rest[0].targets[0].id)
+    it.block(rest[:n_def], e3, f.module, f, [])
+    tested = rest[n_def].test
+    pid_name = tested.left.id if isinstance(tested, ast.Compare) and isinstance(tested.left, ast.Name) else None
+    pid = e3.vars.get(pid_name) if pid_name else None
+    defs = rest[:n_def]
+    rest = [rest[n_def - 1]] + rest[n_def:]     # the remaining checks look at rest[0] (last definition) and rest[1] (the test)
     ok = False
     det = show(pid)[:100] if pid is not None else "?"
     if pid is not None:
@@ -327,7 +352,7 @@ def scan_skeleton(ck, P, it, f, h, body, scan, buf, idx, L):
     env3.add_fact(un("not", cond))
     it3.where.append(f.short)
     try:
-        it3.block([rest[0]], env3, f.module, f, [])
+        it3.block(defs, env3, f.module, f, [])
         D.check_xbuf(ck, it3, fn)
     except Unsupported as e:
         ck.unknown("X-BUF", fn, "id read", str(e))
